@@ -1189,11 +1189,23 @@ class SpecModel:
                 return
             g = node.generators[i]
             items = self.iter_items(self.pure(g.iter, e, mod))
-            if items is None or not isinstance(g.target, ast.Name):
+            if items is None:
                 raise AnalysisError(f"{mod.relpath}:{node.lineno}: cannot iterate {norm(g.iter)}")
+
+            def bind(tgt, x, e2):
+                """plain names and (nested) tuples of names, as `for a, (b, c) in ...` binds them"""
+                if isinstance(tgt, ast.Name):
+                    e2[tgt.id] = x
+                    return
+                if isinstance(tgt, (ast.Tuple, ast.List)) and isinstance(x, TupleV) and len(tgt.elts) == len(x.items) \
+                        and not any(isinstance(t_, ast.Starred) for t_ in tgt.elts):
+                    for t_, x_ in zip(tgt.elts, x.items):
+                        bind(t_, x_, e2)
+                    return
+                raise AnalysisError(f"{mod.relpath}:{node.lineno}: cannot bind {norm(tgt)} while iterating {norm(g.iter)}")
             for x in items:
                 e2 = dict(e)
-                e2[g.target.id] = x
+                bind(g.target, x, e2)
                 if all(self.pure(c, e2, mod) for c in g.ifs):
                     rec(i + 1, e2)
         rec(0, dict(env))
